@@ -25,13 +25,14 @@ from .streams import AskedForever, Runaway
 
 class SimFile(object):
     def __init__(self, name, log, screen=None, encoding="utf-8", on_write=None, max_calls=50000,
-                 write_through=False, on_call=None):
+                 write_through=False, on_call=None, strict=True):
         self.name = name
         self.log = log
         self.screen = screen
         self.encoding = encoding
         self.on_write = on_write
         self.after_write = None
+        self.strict = strict
         self.write_through = write_through   # like a console stream: every write() reaches the device at once
         self.on_call = on_call               # called at every write() of the file object (a scheduling point)
         self.closed = False
@@ -46,8 +47,9 @@ class SimFile(object):
             raise Runaway("more than %d writes to %s" % (self.max_calls, self.name))
         if self.closed:
             raise ValueError("I/O operation on closed file.")
-        if self.encoding != "utf-8":
+        if self.encoding != "utf-8" and self.strict:
             string.encode(self.encoding)  # UnicodeEncodeError like a strict text stream
+            # (strict=False: a stream opened with errors="replace" / "backslashreplace", as stderr is)
         if self.on_call is not None:
             self.on_call(self, string)
         self.buffer += string
@@ -90,6 +92,7 @@ class RealStreamOutput(StreamOutputStream):
         super(RealStreamOutput, self).__init__(simfile)
         self._ansi = ansi
         self.file = simfile
+        self.faults_fired = 0
 
     def supports_ansi(self):
         return self._ansi
